@@ -4,5 +4,5 @@ CLAIM = 'copyState / serialize+deserialize round trips of the real SO(2), R^n, T
 OUT = 'StateStorage, PlannerDataStorage, PlannerData graphs (boost::serialization over iostreams is outside the encodable fragment): marker/signature/truncation rejection is NOT checked; compound/wrapper delegation (thorough)'
 ASSUMPTIONS = []
 def queries(tier):
-    return [cs.so2('roundtrip', tier, bound='every 64-bit pattern'), cs.rv('roundtrip', tier, 1, bound='dim 1, every bit pattern'),
-            cs.rv('roundtrip', tier, 3, bound='dim 3, every bit pattern'), cs.misc('misc_roundtrip', tier, bound='every bit pattern')]
+    return [cs.so2('roundtrip', tier, bound='every 64-bit pattern'), cs.rv('roundtrip', tier, 1, bound='dim 1, every bit pattern', unwind=12),
+            cs.rv('roundtrip', tier, 3, bound='dim 3, every bit pattern', unwind=30), cs.misc('misc_roundtrip', tier, bound='every bit pattern')]
